@@ -13,6 +13,19 @@
 //
 //	R <pkg> <msg index> <payload> <frame data> T=<cantext.Marshal> C=<cantext.MarshalCompact>
 //	    S=<cantext.MessageString> G=<msg.String()> J=<canjson.Marshal | E on error> V=<json.Valid 0|1>
+//	PH <pkg> <history>.<step> <url path> <entries> <request> K=<status> H=<Content-Type> B=<body> U=<0|1>
+//	    HISTORIES of requests: ONE []generated.Message slice (entries as for P; additionally rn / tn0 / tn1 =
+//	    wrappers whose ReceiveTime / TransmitTime is a real, recent time) is handed to
+//	    candebug.ServeMessagesHTTP for a sequence of requests: every message by name (every position of the
+//	    slice), the overview, single ones again; between requests the state of a message is changed (Reset +
+//	    UnmarshalFrame, its time set to now: a new frame arrived). <request> = the conditional headers sent,
+//	    the ones a browser / poller sends on a repeated request: ims (If-Modified-Since = Last-Modified of
+//	    the previous response, else the current time as its Date), inm (If-None-Match = the previous ETag, if
+//	    any), range (Range: bytes=0-10), ifrange; "-" = none. <entries> = what the caller put in the slice,
+//	    with the CURRENT payloads. U = 1 iff the caller's slice still holds the same values in the same order
+//	    after the request. The time-dependent text "<duration> ago (<clock>)" of rn/tn entries is checked by
+//	    the harness (clock = the entry's time, 0 <= duration <= time since) and replaced by "never" before the
+//	    body is printed (if the check fails the text is left as it is and differs from the model).
 //	RR ...  the same as R, but on a message INSTANCE that was rendered before in another state and was then
 //	    taken to this state by Reset() + UnmarshalFrame(payload) (a renderer must not remember an instance)
 //	P <pkg> <url path> <entries> K=<status code> H=<Content-Type> B=<response body>
@@ -63,6 +76,7 @@ import (
 	"math/rand"
 	"net/http"
 	"net/http/httptest"
+	"regexp"
 	"runtime"
 	"sort"
 	"strconv"
@@ -91,6 +105,192 @@ type c19TxWrap struct {
 
 func (c19TxWrap) TransmitTime() time.Time             { return time.Time{} }
 func (t c19TxWrap) IsCyclicTransmissionEnabled() bool { return t.enabled }
+
+// wrappers with a real time; pointers, so that the time can move while the caller's slice keeps the value
+type c19RxTime struct {
+	generated.Message
+	at time.Time
+}
+
+func (w *c19RxTime) ReceiveTime() time.Time { return w.at }
+
+type c19TxTime struct {
+	generated.Message
+	at      time.Time
+	enabled bool
+}
+
+func (w *c19TxTime) TransmitTime() time.Time           { return w.at }
+func (w *c19TxTime) IsCyclicTransmissionEnabled() bool { return w.enabled }
+
+var c19AgoLine = regexp.MustCompile(`(?m)^(Received|Transmitted): (\S+) ago \((\S+)\)$`)
+
+// replaces "<duration> ago (<clock>)" by "never" where clock is the clock text of one of the times in
+// use and the duration lies between 0 and the time since the OLDEST of them
+func c19NormaliseTimes(body []byte, times []time.Time) []byte {
+	return c19AgoLine.ReplaceAllFunc(body, func(l []byte) []byte {
+		m := c19AgoLine.FindSubmatch(l)
+		d, err := time.ParseDuration(string(m[2]))
+		if err != nil || d < 0 {
+			return l
+		}
+		for _, t := range times {
+			if string(m[3]) == t.Format("15:04:05.000000000") && d <= time.Since(t) {
+				return []byte(string(m[1]) + ": never")
+			}
+		}
+		return l
+	})
+}
+
+type c19HistEntry struct {
+	kind    string
+	mi      int
+	md      *descriptor.Message
+	payload can.Data
+	inner   generated.Message
+}
+
+func c19History(rng *rand.Rand, pn string, d dispatcher, db *descriptor.Database, hid int) {
+	// the caller's slice: every message once, in random order for odd histories
+	order := rng.Perm(len(db.Messages))
+	if hid%2 == 0 {
+		for i := range order {
+			order[i] = i
+		}
+	}
+	var msgs []generated.Message
+	var ents []*c19HistEntry
+	var times []time.Time
+	for _, mi := range order {
+		md := db.Messages[mi]
+		p := randPayload(rng)
+		msg := c19Reach(d, md, p)
+		if msg == nil {
+			continue
+		}
+		kind := []string{"p", "r", "t0", "t1", "rn", "rn", "tn0", "tn1"}[rng.Intn(8)]
+		at := time.Now().Add(-time.Duration(rng.Intn(3000)) * time.Millisecond)
+		var w generated.Message
+		switch kind {
+		case "p":
+			w = msg
+		case "r":
+			w = c19RxWrap{msg}
+		case "t0":
+			w = c19TxWrap{msg, false}
+		case "t1":
+			w = c19TxWrap{msg, true}
+		case "rn":
+			w = &c19RxTime{msg, at}
+			times = append(times, at)
+		case "tn0":
+			w = &c19TxTime{msg, at, false}
+			times = append(times, at)
+		default:
+			w = &c19TxTime{msg, at, true}
+			times = append(times, at)
+		}
+		msgs = append(msgs, w)
+		ents = append(ents, &c19HistEntry{kind, mi, md, p, msg})
+	}
+	if len(msgs) == 0 {
+		return
+	}
+	orig := append([]generated.Message(nil), msgs...)
+	// the paths: every position by name, the overview, two more single ones, the overview
+	var paths []string
+	for _, e := range ents {
+		paths = append(paths, "/debug/"+e.md.Name)
+	}
+	paths = append(paths, "/debug/", "/"+ents[rng.Intn(len(ents))].md.Name, "/"+ents[len(ents)-1].md.Name, "/")
+	var lastModified, etag string
+	for step, path := range paths {
+		// a new frame arrives for one message (not before the first request)
+		if step > 0 && rng.Intn(3) != 0 {
+			k := rng.Intn(len(ents))
+			e := ents[k]
+			p := randPayload(rng)
+			e.inner.Reset()
+			if err := e.inner.UnmarshalFrame(can.Frame{ID: e.md.ID, Length: e.md.Length, IsExtended: e.md.IsExtended, Data: p}); err == nil {
+				e.payload = p
+			} else {
+				e.payload = e.inner.Frame().Data
+			}
+			now := time.Now()
+			switch w := orig[k].(type) {
+			case *c19RxTime:
+				w.at = now
+				times = append(times, now)
+			case *c19TxTime:
+				w.at = now
+				times = append(times, now)
+			}
+		}
+		req := httptest.NewRequest(http.MethodGet, path, nil)
+		var hs []string
+		if step > 0 {
+			switch rng.Intn(5) {
+			case 0:
+			case 1, 2:
+				hs = append(hs, "ims")
+			case 3:
+				hs = append(hs, "range")
+			default:
+				hs = append(hs, "ims", "range", "ifrange")
+			}
+		}
+		for _, h := range hs {
+			switch h {
+			case "ims":
+				v := lastModified
+				if v == "" {
+					v = time.Now().UTC().Format(http.TimeFormat)
+				}
+				req.Header.Set("If-Modified-Since", v)
+				if etag != "" {
+					req.Header.Set("If-None-Match", etag)
+				}
+			case "range":
+				req.Header.Set("Range", "bytes=0-10")
+			case "ifrange":
+				if lastModified != "" {
+					req.Header.Set("If-Range", lastModified)
+				}
+			}
+		}
+		if etag != "" && len(hs) > 0 && hs[0] == "ims" {
+			hs = append(hs, "inm")
+		}
+		rec := httptest.NewRecorder()
+		candebug.ServeMessagesHTTP(rec, req, msgs)
+		if v := rec.Header().Get("Last-Modified"); v != "" {
+			lastModified = v
+		}
+		if v := rec.Header().Get("ETag"); v != "" {
+			etag = v
+		}
+		unchanged := 1
+		if len(msgs) != len(orig) {
+			unchanged = 0
+		}
+		for i := range orig {
+			if i < len(msgs) && msgs[i] != orig[i] {
+				unchanged = 0
+			}
+		}
+		var es []string
+		for _, e := range ents {
+			es = append(es, fmt.Sprintf("%s:%x:%s", e.kind, e.mi, hexData(e.payload)))
+		}
+		hd := "-"
+		if len(hs) > 0 {
+			hd = strings.Join(hs, "+")
+		}
+		fmt.Fprintf(out, "PH %s %d.%d %s %s %s K=%d H=%s B=%s U=%d\n", pn, hid, step, c19Hex([]byte(req.URL.Path)), strings.Join(es, ","), hd,
+			rec.Code, c19Hex([]byte(rec.Header().Get("Content-Type"))), c19Hex(c19NormaliseTimes(rec.Body.Bytes(), times)), unchanged)
+	}
+}
 
 func c19Hex(b []byte) string {
 	if len(b) == 0 {
@@ -600,6 +800,9 @@ func c19RenderMode(args []string) {
 			fmt.Fprintf(out, "P %s %s %s K=%d H=%s B=%s\n", pn, c19Hex([]byte(req.URL.Path)), strings.Join(ents, ","),
 				rec.Code, c19Hex([]byte(rec.Header().Get("Content-Type"))), c19Hex(rec.Body.Bytes()))
 			keeper.bytes(fmt.Sprintf("AP %s %s %s", pn, c19Hex([]byte(req.URL.Path)), strings.Join(ents, ",")), rec.Body.Bytes())
+		}
+		for h := 0; h < (pages+7)/8; h++ {
+			c19History(rng, pn, d, db, h)
 		}
 		keeper.flush()
 		for _, l := range acLines {
